@@ -19,7 +19,7 @@ use crate::{
     eng::{ext_of, Engine, F, R},
     gen::{chacha, rand_scalar},
     mutate::fresh_point,
-    refimpl::{Grp, Stmt},
+    refimpl::Stmt,
     runner::{guarded, sub, CaseLog, PropertyDef, RunCtx, Sub, Tier},
 };
 
@@ -257,8 +257,7 @@ pub fn oracle<E: Engine>(_ctx: &RunCtx, c: &Ctor, log: &mut CaseLog) -> Result<(
                 return Err(format!("commit with {} blinding factors under degree {} is {} but the documented domain says {}", nblind, deg, okerr(got.is_ok()), okerr(want)));
             }
             if let Ok(cm) = got {
-                let (h, g) = <E::P as Grp>::pedersen(*deg);
-                if cm != Stmt::<E::P>::commit(&h, &g, &v, &r) {
+                if cm != Stmt::<E::P>::commit(&pc.h_base, &pc.g_base_vec, &v, &r) {
                     return Err("commit does not equal value*h + sum blinding_k*g_k".into());
                 }
             }
